@@ -34,7 +34,10 @@ func main() {
 			"tuple, signature = (script kind, class, header-code length, height-zero flag, coinbase, amount-code length); journal: one " +
 			"block shape (inputs per transaction) with its spent outputs; beststate: (work length, field magnitudes); blockrow: 48 rows " +
 			"through dbStoreBlockNode in a real database; hostile: 88 mutated / random byte strings per case through the decoders; " +
-			"db: one real chain (ffldb + blockchain.New) per case, raw bucket bytes + reopen + hostile records")
+			"db: one real chain (ffldb + blockchain.New) per case, raw bucket bytes + reopen + hostile records; legacy: one legacy " +
+			"(utxo set v1) per-transaction entry per case = (outputs 0/1 unspent, bitmap shape, padding), decoded whole, at every " +
+			"prefix length and mutated; legacydb: one real database rewritten in the older layouts (legacy utxo bucket, block " +
+			"index kept in ffldb-blockidx) and reopened through blockchain.New")
 		calibrate(c)
 		vlqFamily(c)
 		amountFamily(c)
@@ -43,8 +46,10 @@ func main() {
 		journalFamily(c)
 		bestStateFamily(c)
 		hostileFamily(c)
+		legacyFamily(c)
 		blockRowFamily(c)
 		dbFamily(c)
+		legacyDBFamily(c)
 	})
 }
 
